@@ -1,9 +1,9 @@
 package main
 
 // Context slots: a validator receives its context values (validation time, outstanding request IDs, the signature
-// token) either as parameters or as fields of one struct parameter (a "parameter object"). Rules that speak about
-// "the time parameter" or "the token passed at this call" address the value through a slot, so that grouping the
-// parameters into a struct does not change what they see.
+// token) either as parameters or as fields of one struct parameter (a "parameter object"), possibly of a struct nested
+// or embedded in it. Rules that speak about "the time parameter" or "the token passed at this call" address the value
+// through a slot, so that grouping the parameters into a struct does not change what they see.
 
 import (
 	"go/token"
@@ -13,28 +13,51 @@ import (
 )
 
 type ctxSlot struct {
-	Param int // index into fn.Params
-	Field int // -1: the parameter itself; otherwise the field of the struct parameter
+	Param int   // index into fn.Params
+	Path  []int // nil: the parameter itself; otherwise the field path inside the struct parameter
+}
+
+func (s ctxSlot) isParam() bool { return len(s.Path) == 0 }
+
+// unexportedStruct: t is an unexported named struct type of the module (a parameter object).
+func unexportedStruct(t types.Type) *types.Struct {
+	st, ok := t.Underlying().(*types.Struct)
+	if !ok {
+		return nil
+	}
+	if n := namedOf(t); n == nil || n.Obj().Exported() {
+		return nil
+	}
+	return st
 }
 
 // slotOf: where fn receives a value whose type satisfies pred.
 func slotOf(fn *ssa.Function, pred func(types.Type) bool) (ctxSlot, bool) {
 	for i, prm := range fn.Params {
 		if pred(prm.Type()) {
-			return ctxSlot{i, -1}, true
+			return ctxSlot{i, nil}, true
 		}
 	}
 	for i, prm := range fn.Params {
-		st, ok := prm.Type().Underlying().(*types.Struct)
-		if !ok {
+		st := unexportedStruct(prm.Type())
+		if st == nil {
 			continue
-		}
-		if n := namedOf(prm.Type()); n == nil || n.Obj().Exported() {
-			continue // only unexported parameter objects of the module
 		}
 		for f := 0; f < st.NumFields(); f++ {
 			if pred(st.Field(f).Type()) {
-				return ctxSlot{i, f}, true
+				return ctxSlot{i, []int{f}}, true
+			}
+		}
+		// one level of nesting (a context struct embedded in another)
+		for f := 0; f < st.NumFields(); f++ {
+			inner := unexportedStruct(st.Field(f).Type())
+			if inner == nil {
+				continue
+			}
+			for g := 0; g < inner.NumFields(); g++ {
+				if pred(inner.Field(g).Type()) {
+					return ctxSlot{i, []int{f, g}}, true
+				}
 			}
 		}
 	}
@@ -57,76 +80,187 @@ func isParamOrSpill(v ssa.Value, prm *ssa.Parameter) bool {
 	return false
 }
 
+// fieldChainOf: v reads (or addresses) the field path of a parameter of fn: the parameter and the path (outermost field
+// first). A plain parameter (or its spill slot) has the empty path.
+func fieldChainOf(fn *ssa.Function, v ssa.Value) (*ssa.Parameter, []int, bool) {
+	var rev []int
+	cur := v
+	for i := 0; i < 8; i++ {
+		for _, q := range fn.Params {
+			if isParamOrSpill(cur, q) {
+				path := make([]int, len(rev))
+				for k := range rev {
+					path[k] = rev[len(rev)-1-k]
+				}
+				return q, path, true
+			}
+		}
+		switch x := cur.(type) {
+		case *ssa.Field:
+			rev = append(rev, x.Field)
+			cur = x.X
+		case *ssa.FieldAddr:
+			rev = append(rev, x.Field)
+			cur = x.X
+		case *ssa.UnOp:
+			if x.Op != token.MUL {
+				return nil, nil, false
+			}
+			// a local copy of a nested struct (ac := rc.assertionContext)
+			if al, ok := x.X.(*ssa.Alloc); ok {
+				if sv := initStore(al); sv != nil {
+					cur = sv
+					continue
+				}
+			}
+			cur = x.X
+		case *ssa.Alloc:
+			sv := initStore(x)
+			if sv == nil {
+				return nil, nil, false
+			}
+			cur = sv
+		default:
+			return nil, nil, false
+		}
+	}
+	return nil, nil, false
+}
+
+func samePath(a, b []int) bool {
+	if len(a) != len(b) {
+		return false
+	}
+	for i := range a {
+		if a[i] != b[i] {
+			return false
+		}
+	}
+	return true
+}
+
 // slotValueIn: a value inside fn that is the slot's content (the parameter, or a read of the struct parameter's field).
 func slotValueIn(fn *ssa.Function, s ctxSlot) ssa.Value {
 	if s.Param >= len(fn.Params) {
 		return nil
 	}
 	prm := fn.Params[s.Param]
-	if s.Field < 0 {
+	if s.isParam() {
 		return prm
 	}
 	for _, b := range fn.Blocks {
 		for _, in := range b.Instrs {
+			var v ssa.Value
 			switch x := in.(type) {
 			case *ssa.Field:
-				if x.Field == s.Field && isParamOrSpill(x.X, prm) {
-					return x
-				}
+				v = x
 			case *ssa.UnOp:
-				if fa, ok := x.X.(*ssa.FieldAddr); ok && x.Op == token.MUL && fa.Field == s.Field && isParamOrSpill(fa.X, prm) {
-					return x
+				if _, ok := x.X.(*ssa.FieldAddr); ok && x.Op == token.MUL {
+					v = x
 				}
+			}
+			if v == nil {
+				continue
+			}
+			if q, path, ok := fieldChainOf(fn, v); ok && q == prm && samePath(path, s.Path) {
+				return v
 			}
 		}
 	}
 	return nil
 }
 
-// slotArgAt: what the call site passes for the slot: the argument; for a field slot, the value the struct literal
-// passed stores into the field; forwarded is true when the caller passes its own struct parameter of the same type
-// through unchanged (then the value is the caller's own slot content).
-func slotArgAt(cs callSite, s ctxSlot) (v ssa.Value, forwarded bool) {
-	arg := cs.Arg(s.Param)
-	if arg == nil {
-		return nil, false
-	}
-	if s.Field < 0 {
-		return arg, false
-	}
-	// the caller's own parameter object handed on
-	for _, q := range cs.Caller.Params {
-		if isParamOrSpill(arg, q) && types.Identical(q.Type(), arg.Type()) {
-			return slotValueIn(cs.Caller, ctxSlot{paramIndex(cs.Caller, q), s.Field}), true
-		}
-	}
-	// a literal built by the caller
-	var al *ssa.Alloc
-	switch y := arg.(type) {
-	case *ssa.UnOp:
-		al, _ = y.X.(*ssa.Alloc)
-	case *ssa.Alloc:
-		al = y
-	}
-	if al == nil {
-		return nil, false
+// literalFieldValue: the value a struct literal under construction at address base (a local, or the address of a nested
+// struct field) holds at the field path: the single store into that field; an inner struct may be built in place or
+// assigned whole from another literal.
+func literalFieldValue(base ssa.Value, path []int, depth int) ssa.Value {
+	if len(path) == 0 || depth > 4 || base.Referrers() == nil {
+		return nil
 	}
 	var val ssa.Value
 	n := 0
-	for _, rf := range *al.Referrers() {
-		if fa, ok := rf.(*ssa.FieldAddr); ok && fa.Field == s.Field {
+	for _, rf := range *base.Referrers() {
+		fa, ok := rf.(*ssa.FieldAddr)
+		if !ok || fa.Field != path[0] || fa.X != base {
+			continue
+		}
+		if len(path) == 1 {
 			for _, r2 := range *fa.Referrers() {
 				if st, ok := r2.(*ssa.Store); ok && st.Addr == ssa.Value(fa) {
 					val = st.Val
 					n++
 				}
 			}
+			continue
+		}
+		// nested: built in place through the field's address ...
+		if v := literalFieldValue(fa, path[1:], depth+1); v != nil {
+			val = v
+			n++
+			continue
+		}
+		// ... or assigned whole from another literal
+		for _, r2 := range *fa.Referrers() {
+			if st, ok := r2.(*ssa.Store); ok && st.Addr == ssa.Value(fa) {
+				if ld, ok := st.Val.(*ssa.UnOp); ok && ld.Op == token.MUL {
+					if v := literalFieldValue(ld.X, path[1:], depth+1); v != nil {
+						val = v
+						n++
+					}
+				}
+			}
 		}
 	}
 	if n != 1 {
+		return nil
+	}
+	return val
+}
+
+// slotArgAt: what the call site passes for the slot: the argument; for a field slot, the value the struct literal
+// passed stores into the field; forwarded is true when the caller passes (a field of) its own struct parameter through
+// unchanged (then the value is the caller's own slot content).
+func slotArgAt(cs callSite, s ctxSlot) (v ssa.Value, forwarded bool) {
+	arg := cs.Arg(s.Param)
+	if arg == nil {
 		return nil, false
 	}
-	return val, false
+	if s.isParam() {
+		return arg, false
+	}
+	// (a field of) the caller's own parameter object handed on
+	if cslot, ok := callerSlot(cs, s); ok {
+		return slotValueIn(cs.Caller, cslot), true
+	}
+	// a literal built by the caller
+	var base ssa.Value
+	switch y := arg.(type) {
+	case *ssa.UnOp:
+		if y.Op == token.MUL {
+			base = y.X
+		}
+	case *ssa.Alloc:
+		base = y
+	}
+	if base == nil {
+		return nil, false
+	}
+	return literalFieldValue(base, s.Path, 0), false
+}
+
+// callerSlot: the call site passes (a struct field of) one of the caller's own parameters for the slot's parameter: the
+// caller's slot that holds the same value.
+func callerSlot(cs callSite, s ctxSlot) (ctxSlot, bool) {
+	arg := cs.Arg(s.Param)
+	if arg == nil || s.isParam() {
+		return ctxSlot{}, false
+	}
+	q, path, ok := fieldChainOf(cs.Caller, arg)
+	if !ok || unexportedStruct(arg.Type()) == nil {
+		return ctxSlot{}, false
+	}
+	full := append(append([]int{}, path...), s.Path...)
+	return ctxSlot{paramIndex(cs.Caller, q), full}, true
 }
 
 func paramIndex(fn *ssa.Function, p *ssa.Parameter) int {
